@@ -134,6 +134,7 @@ type ContractFile struct {
 	Imports   map[string]string // name -> path
 	Globals   map[string][]uint64
 	FieldInvs []*FieldInv
+	Immutable []string
 }
 
 // FieldInv is a global invariant of one ghost field: assumed at every read, re-established by every
@@ -186,14 +187,6 @@ func parseContractFile(path, pkgDir string, src []byte) (*ContractFile, error) {
 			continue
 		}
 		lineNo := i + 1
-		if strings.HasPrefix(body, "macro ") {
-			parts := strings.SplitN(strings.TrimPrefix(body, "macro "), "=", 2)
-			if len(parts) != 2 {
-				return nil, fmt.Errorf("%s:%d: bad macro", path, lineNo)
-			}
-			macros[strings.TrimSpace(parts[0])] = strings.TrimSpace(parts[1])
-			continue
-		}
 		if strings.Contains(body, "$") {
 			var names []string
 			for k := range macros {
@@ -203,6 +196,14 @@ func parseContractFile(path, pkgDir string, src []byte) (*ContractFile, error) {
 			for _, k := range names {
 				body = strings.ReplaceAll(body, "$"+k, macros[k])
 			}
+		}
+		if strings.HasPrefix(body, "macro ") {
+			parts := strings.SplitN(strings.TrimPrefix(body, "macro "), "=", 2)
+			if len(parts) != 2 {
+				return nil, fmt.Errorf("%s:%d: bad macro", path, lineNo)
+			}
+			macros[strings.TrimSpace(parts[0])] = strings.TrimSpace(parts[1])
+			continue
 		}
 		if m := reHead.FindStringSubmatch(body); m != nil {
 			cur = &Contract{PkgDir: pkgDir, Kind: m[1], Target: m[2], Flags: map[string]bool{}, Loops: map[int]*LoopSpec{}, Cbs: map[string]*CbSpec{}, Line: lineNo}
@@ -224,6 +225,14 @@ func parseContractFile(path, pkgDir string, src []byte) (*ContractFile, error) {
 				vals = append(vals, v)
 			}
 			cf.Globals[strings.TrimSpace(parts[0])] = vals
+			continue
+		}
+		if strings.HasPrefix(body, "immutable ") {
+			for _, it := range strings.Split(strings.TrimPrefix(body, "immutable "), ",") {
+				if it = strings.TrimSpace(it); it != "" {
+					cf.Immutable = append(cf.Immutable, it)
+				}
+			}
 			continue
 		}
 		if strings.HasPrefix(body, "fieldinv ") { // fieldinv ghost_expiresAt: v >= 0
@@ -262,7 +271,7 @@ func parseContractFile(path, pkgDir string, src []byte) (*ContractFile, error) {
 			for _, fl := range strings.Fields(rest) {
 				cur.Flags[fl] = true
 			}
-		case "assumed", "nopanic", "pure", "inline", "fresh", "panics", "noframe", "noreturn", "may-panic", "nilcheck":
+		case "assumed", "nopanic", "pure", "inline", "fresh", "panics", "noframe", "noreturn", "may-panic", "nilcheck", "counted":
 			cur.Flags[kw] = true
 			if rest != "" {
 				cur.Notes = append(cur.Notes, kw+": "+rest)
@@ -792,8 +801,12 @@ func (g *genCtx) generate(cf *ContractFile) (string, error) {
 			seq++
 			cl.FnName = fmt.Sprintf("Zvc_%d_%s_%s", seq, sanitize(c.Target), sanitize(cl.Label))
 			expr, pres := hoist(cl.Expr, "pre")
+			expr, lpends := hoist(expr, "lpend")
 			expr, lps := hoist(expr, "lp")
 			expr = implTransform(expr)
+			for i := range lpends {
+				lpends[i] = implTransform(lpends[i])
+			}
 			for i := range pres {
 				pres[i] = implTransform(pres[i])
 			}
@@ -812,7 +825,7 @@ func (g *genCtx) generate(cf *ContractFile) (string, error) {
 					return "", fmt.Errorf("%s:%d: %v in %q", cf.Path, cl.Line, err, expr)
 				}
 				for _, id := range ids {
-					if known[id] || strings.HasPrefix(id, "pre_") || strings.HasPrefix(id, "lp_") {
+					if known[id] || strings.HasPrefix(id, "pre_") || strings.HasPrefix(id, "lp_") || strings.HasPrefix(id, "lpend_") {
 						continue
 					}
 					if g.pkg.Scope().Lookup(id) != nil || types.Universe.Lookup(id) != nil || cf.Imports[id] != "" {
@@ -864,13 +877,13 @@ func (g *genCtx) generate(cf *ContractFile) (string, error) {
 			switch cl.Kind {
 			case "requires", "cbrequires":
 				cl.Levels = 1
-				if len(pres) > 0 || len(lps) > 0 {
+				if len(pres) > 0 || len(lps) > 0 || len(lpends) > 0 {
 					return "", fmt.Errorf("%s:%d: pre()/lp() not allowed in %s", cf.Path, cl.Line, cl.Kind)
 				}
 				fmt.Fprintf(&w, "func %s%s(%s) bool {\n\t%s\n\treturn %s\n}\n", cl.FnName, tdecl, plist(l1), use(l1), expr)
 			case "invariant":
 				cl.Levels = 2
-				if len(lps) > 0 {
+				if len(lps) > 0 || len(lpends) > 0 {
 					return "", fmt.Errorf("%s:%d: lp() not allowed in invariant", cf.Path, cl.Line)
 				}
 				fmt.Fprintf(&w, "func %s%s(%s) func(%s) bool {\n\t%s\n", cl.FnName, tdecl, plist(l1), plist(l3), use(l1))
@@ -879,16 +892,20 @@ func (g *genCtx) generate(cf *ContractFile) (string, error) {
 				}
 				fmt.Fprintf(&w, "\treturn func(%s) bool {\n\t\t%s\n\t\treturn %s\n\t}\n}\n", plist(l3), use(l3), expr)
 			case "ensures", "cbensures":
-				cl.Levels = 3
-				fmt.Fprintf(&w, "func %s%s(%s) func() func(%s) bool {\n\t%s\n", cl.FnName, tdecl, plist(l1), plist(l3), use(l1))
+				cl.Levels = 4
+				fmt.Fprintf(&w, "func %s%s(%s) func() func() func(%s) bool {\n\t%s\n", cl.FnName, tdecl, plist(l1), plist(l3), use(l1))
 				for i, p := range pres {
 					fmt.Fprintf(&w, "\tpre_%d := %s\n", i, p)
 				}
-				fmt.Fprintf(&w, "\treturn func() func(%s) bool {\n", plist(l3))
+				fmt.Fprintf(&w, "\treturn func() func() func(%s) bool {\n", plist(l3))
 				for i, p := range lps {
 					fmt.Fprintf(&w, "\t\tlp_%d := %s\n", i, p)
 				}
-				fmt.Fprintf(&w, "\t\treturn func(%s) bool {\n\t\t\t%s\n\t\t\treturn %s\n\t\t}\n\t}\n}\n", plist(l3), use(l3), expr)
+				fmt.Fprintf(&w, "\t\treturn func() func(%s) bool {\n", plist(l3))
+				for i, p := range lpends {
+					fmt.Fprintf(&w, "\t\t\tlpend_%d := %s\n", i, p)
+				}
+				fmt.Fprintf(&w, "\t\t\treturn func(%s) bool {\n\t\t\t\t%s\n\t\t\t\treturn %s\n\t\t\t}\n\t\t}\n\t}\n}\n", plist(l3), use(l3), expr)
 			}
 			body.WriteString(w.String())
 			body.WriteString("\n")
@@ -910,6 +927,11 @@ func (g *genCtx) generate(cf *ContractFile) (string, error) {
 					return name
 				}
 				switch {
+				case raw == "*":
+					mi.Kind, mi.Type, mi.Field = "whole", "*", "*"
+				case strings.HasPrefix(raw, "result."):
+					// fields of the (freshly created) result object
+					mi.Kind, mi.Field = "resultfield", strings.TrimPrefix(raw, "result.")
 				case strings.Contains(raw, "::"):
 					parts := strings.SplitN(raw, "::", 2)
 					mi.Kind, mi.Type, mi.Field = "whole", parts[0], parts[1]
